@@ -92,21 +92,16 @@ func keyGroupRanges(keyGroupCount, rangeCount int) []KeyGroupRange {
 
 // Return a slice where each slice index corresponds to an item in `to` where
 // the value is a list of KegGroup indices assigned from the `from`
-// KeyGroupRanges.
+// KeyGroupRanges. The `from` ranges may be given in any order (operator
+// checkpoints are recorded in the order they were acknowledged); the returned
+// indices refer to positions in `from`.
 func AssignRanges(to []KeyGroupRange, from []KeyGroupRange) [][]int {
 	assignments := make([][]int, len(to))
-	fromIdx := 0
 	for toIdx, toRange := range to {
-		// Advance fromIdx to the first possible overlap
-		for fromIdx < len(from) && from[fromIdx].End <= toRange.Start {
-			fromIdx++
-		}
-		j := fromIdx
-		for j < len(from) && from[j].Start < toRange.End {
-			if toRange.Overlaps(from[j]) {
-				assignments[toIdx] = append(assignments[toIdx], j)
+		for fromIdx, fromRange := range from {
+			if toRange.Overlaps(fromRange) {
+				assignments[toIdx] = append(assignments[toIdx], fromIdx)
 			}
-			j++
 		}
 	}
 	return assignments
